@@ -2,18 +2,33 @@
 # run the release `clockbound` binary in a private mount namespace with a tmpfs /run,
 # print what it published as max_drift_ppb, or how it ended.
 #   usage: run_daemon.sh <binary> [--max-drift-rate X]
+#   CB_PRIOR_PPB=<n> : the daemon restarts over a valid segment left by a previous instance whose
+#                      live (Synchronized) record carries max_drift_ppb = n, generation 10
 # output: "ok <ppb>" | "refused <exit code>" | "rejected" (clap usage error, exit 2) | "timeout"
 BIN="$1"; shift
 exec unshare -m sh -c '
 mount -t tmpfs tmpfs /run || exit 99
 BIN="$1"; shift
+prior_gen=0
+if [ -n "$CB_PRIOR_PPB" ]; then
+  mkdir -p /run/clockbound
+  python3 - "$CB_PRIOR_PPB" <<PY || exit 98
+import struct, sys, time
+now = time.clock_gettime(time.CLOCK_MONOTONIC)
+sec = int(now)
+rec = struct.pack("=qqqqqIII", sec, 0, sec + 1000, 0, 12345, int(sys.argv[1]), 0, 1)
+hdr = struct.pack("=IIIHH", 0x414D5A4E, 0x43420200, 72, 1, 10)
+open("/run/clockbound/shm", "wb").write(hdr + rec + b"\0" * (72 - 16 - len(rec)))
+PY
+  prior_gen=10
+fi
 "$BIN" "$@" >/run/cb.log 2>&1 &
 pid=$!
 i=0
 while [ $i -lt 100 ]; do
   if [ -s /run/clockbound/shm ]; then
     gen=$(od -An -tu2 -j14 -N2 /run/clockbound/shm | tr -d " ")
-    if [ "$gen" != "0" ] && [ $((gen % 2)) -eq 0 ]; then
+    if [ "$gen" != "0" ] && [ "$gen" != "$prior_gen" ] && [ $((gen % 2)) -eq 0 ]; then
       ppb=$(od -An -tu4 -j56 -N4 /run/clockbound/shm | tr -d " ")
       kill $pid 2>/dev/null; wait $pid 2>/dev/null
       echo "ok $ppb"; exit 0
